@@ -94,7 +94,34 @@ def lm_row(rng, V, exact, probs=False):
     return [rand_logit(rng) for _ in range(V)]
 
 
-def tables_json(tabs, exact, from_probs=False):
+LAY_W = ["contig", "contig", "perm", "strided", "offset"]
+DT_W = ["f32", "f32", "f64"]
+NO_LIMIT = 1073741824  # RandomWalk's "practically infinite" step limit when max_iters is None
+
+
+def norm_eos(case):
+    """the eos token RandomWalk works with: a negative index counts from the end"""
+    return None if case["eos"] is None else case["eos"] % case["V"]
+
+
+def init_state(case):
+    """the initial state handed to walk / wrapper / language model (None = not given)"""
+    import torch
+    sel = case.get("sel")
+    return None if sel is None else {"sel": torch.tensor(sel, dtype=torch.long)}
+
+
+def tables_for(case, n_elems):
+    """the table each of the `n_elems` batch elements answers from"""
+    tabs, sel = case["tables"], case.get("sel")
+    if sel is not None:
+        return [tabs[sel[i % len(sel)]] for i in range(n_elems)]
+    if case.get("shared"):
+        return [tabs[0]] * n_elems
+    return tabs
+
+
+def tables_json(tabs, exact, from_probs=False, dtype=None):
     """-> driver format with the implementation's own log_softmax applied to every row"""
     out = []
     for tab in tabs:
@@ -102,7 +129,7 @@ def tables_json(tabs, exact, from_probs=False):
         rows = [tab[k] for k in keys]
         if from_probs:
             rows = probs_to_logits(rows)
-        lrows = tl.lsm_rows(rows, exact)
+        lrows = tl.lsm_rows(rows, exact, dtype)
         out.append([{"h": [int(x) for x in k.split(",")] if k else [], "row": r}
                     for k, r in zip(keys, lrows)])
     return out
@@ -116,15 +143,20 @@ def probs_to_logits(rows):
 
 class C07(PropertyCheck):
     pid = "C07"
-    rule = ("six case kinds: seq (all hyp ranks 1-4, every dim incl. negative, eos set/unset/absent/"
-            "out of vocabulary, OOV tokens, sizes 0-3), packed (every length pattern for N<=4 (quick: "
-            "N<=3), sorted and unsorted, dim 0/1/-1/-2), walk (every canonical draw sequence of tiny "
-            "LMs with V<=3, max_iters<=3(4), N<=2, eos each/unset, batch_size set/unset), dist "
-            "(support, log_prob of every support row, validation of rows of every length), sample "
-            "(sample shapes (), (M,), (M1,M2), batch shape set/unset), greedy (all blank indices, "
-            "lens, layouts, is_probs both ways). non-trivial: an eos strictly inside the tensor / a "
-            "path that ended before the step limit / >= 1 repeated or blank frame removed; distinct "
-            "by the full case")
+    rule = ("eight case kinds: seq (all hyp ranks 1-4, every dim incl. negative, eos set/unset/absent/"
+            "out of vocabulary/negative, OOV tokens, sizes 0-3), packed (every length pattern for N<=4 "
+            "(quick: N<=3), sorted and unsorted, dim 0/1/-1/-2, eos argument given or not), advance "
+            "(random_walk_advance called directly: no prefix lengths / all full / none full / mixed, "
+            "S 0-3), walk (every canonical draw sequence of tiny LMs with V<=3, max_iters<=3(4) or "
+            "unset, N<=3, every eos index -V..V-1 or unset, batch_size set/unset, initial state "
+            "selecting the tables), dist (support, expand=False, log_prob of every support row as "
+            "long/float tensors, validation and support.check of rows of every length, validate_args "
+            "True/None/False), sample (sample shapes (), (M,), (M1,M2), empty, batch shape set/unset, "
+            "cache on/off with hit/other value/other shape/cleared, max_iters unset), greedy (all "
+            "blank indices, lens, layouts, is_probs both ways), ctor (argument errors); tensor inputs "
+            "in float32/float64 and four memory layouts. non-trivial: an eos strictly inside the "
+            "tensor / a path that ended before the step limit / >= 1 repeated or blank frame removed; "
+            "distinct by the full case")
     assumptions = [
         "log_softmax/softmax are trusted primitives: exact stream replaces log_softmax by the identity "
         "on dyadic values, tolerance stream hands torch's own log_softmax values to the model",
@@ -140,7 +172,8 @@ class C07(PropertyCheck):
     # ------------------------------------------------------------------ generators
     def cases(self, rng, tier):
         gens = [self.gen_dist(rng, tier), self.gen_sample(rng, tier), self.gen_walk(rng, tier),
-                self.gen_seq(rng, tier), self.gen_packed(rng, tier), self.gen_greedy(rng, tier)]
+                self.gen_seq(rng, tier), self.gen_packed(rng, tier), self.gen_greedy(rng, tier),
+                self.gen_ctor(rng, tier), self.gen_advance(rng, tier)]
         # round robin so that a time budget cuts all kinds evenly
         live = list(gens)
         while live:
@@ -170,23 +203,25 @@ class C07(PropertyCheck):
             d = dim % nd
             V = rng.choice([1, 2, 3, 4])
             eos_kind = rng.choice(["none", "in", "in", "in", "oov", "neg"])
-            eos = {"none": None, "in": rng.randrange(V), "oov": V + rng.randrange(2), "neg": -1}[eos_kind]
+            eos = {"none": None, "in": rng.randrange(V), "oov": V + rng.randrange(2),
+                   "neg": -1 - rng.randrange(2)}[eos_kind]
             if shape[d] == 0 and eos is not None:
                 # zero-size sequence dimension with eos set: _lens_from_eos raises (C01's finding, _string.py)
                 eos = None
-            yield self.mk_seq(rng, shape, V, dim, eos, exact=(i % 2 == 0))
+            yield self.mk_seq(rng, shape, V, dim, eos, exact=(i % 2 == 0), dtype=rng.choice(DT_W),
+                              lay=(rng.choice(LAY_W), rng.choice(LAY_W)))
 
-    def mk_seq(self, rng, shape, V, dim, eos, exact):
+    def mk_seq(self, rng, shape, V, dim, eos, exact, dtype="f32", lay=("contig", "contig")):
         n = prodl(shape)
-        toks = list(range(V)) + [-1, V, V + 2]
-        w = [6] * V + [1, 1, 1]
+        toks = list(range(V)) + [-1, V, V + 2, -2]
+        w = [6] * V + [1, 1, 1, 1]
         if eos is not None:
             toks.append(eos)
             w.append(5)
         hyp = [rng.choices(toks, w)[0] for _ in range(n)]
         logits = [dyadic_logp(rng) if exact else rand_logit(rng) for _ in range(n * V)]
         return {"kind": "seq", "shape": shape, "V": V, "dim": dim, "eos": eos, "exact": exact,
-                "hyp": hyp, "logits": logits}
+                "hyp": hyp, "logits": logits, "dtype": dtype, "lay_logits": lay[0], "lay_hyp": lay[1]}
 
     # ---- packed
     def gen_packed(self, rng, tier):
@@ -194,7 +229,7 @@ class C07(PropertyCheck):
         pats = []
         for N in range(1, maxN + 1):
             pats += list(itertools.product(range(1, maxL + 1), repeat=N))
-        reps = {"quick": 1, "thorough": 4, "search": 6}[tier]
+        reps = {"quick": 2, "thorough": 5, "search": 6}[tier]
         k = 0
         for _ in range(reps):
             for lens in pats:
@@ -204,12 +239,15 @@ class C07(PropertyCheck):
                     k += 1
                     dim = [1, 0, -1, -2][k % 4]
                     extra = rng.choice([0, 0, 1])
-                    yield self.mk_packed(rng, lens, enforce, dim, rng.choice([1, 2, 3]), extra,
-                                         exact=(k % 2 == 0))
+                    V = rng.choice([1, 2, 3])
+                    yield self.mk_packed(rng, lens, enforce, dim, V, extra, exact=(k % 2 == 0),
+                                         dtype=rng.choice(DT_W), lay=(rng.choice(LAY_W), rng.choice(LAY_W)),
+                                         eos_arg=rng.choice([None, None, rng.randrange(V)]))
         # malformed: hyp shorter than the longest sequence
         yield self.mk_packed(rng, [3, 1], True, 1, 2, -1, True)
 
-    def mk_packed(self, rng, lens, enforce, dim, V, extra, exact):
+    def mk_packed(self, rng, lens, enforce, dim, V, extra, exact, dtype="f32",
+                  lay=("contig", "contig"), eos_arg=None):
         N, Tm = len(lens), max(lens)
         T = Tm + extra
         toks = list(range(V)) + [-1, V]
@@ -217,7 +255,8 @@ class C07(PropertyCheck):
         logits = [[[dyadic_logp(rng) if exact else rand_logit(rng) for _ in range(V)]
                    for _ in range(Tm)] for _ in range(N)]
         return {"kind": "packed", "lens": lens, "enforce_sorted": enforce, "dim": dim, "V": V,
-                "hyp": hyp, "logits": logits, "exact": exact}
+                "hyp": hyp, "logits": logits, "exact": exact, "dtype": dtype, "lay_data": lay[0],
+                "lay_hyp": lay[1], "eos_arg": eos_arg}
 
     # ---- walk
     def canonical_draws(self, V, T, eos):
@@ -236,27 +275,77 @@ class C07(PropertyCheck):
         budget = {"quick": 14, "thorough": 120, "search": 200}[tier]
         k = 0
         for V in (2, 3):
-            for T in range(0, Tmax + 1):
-                for eos in [None] + list(range(V)) + [-1]:
+            for T in list(range(0, Tmax + 1)) + [None]:
+                # every eos index RandomWalk accepts: unset, 0..V-1 and the negative ones -V..-1
+                for eos in [None] + list(range(V)) + list(range(-V, 0)):
                     e = None if eos is None else eos % V
-                    seqs = self.canonical_draws(V, T, e)
+                    if T is None:
+                        if e is None:
+                            continue
+                        # no step limit: the walk ends when every path has drawn eos
+                        seqs = [q for q in self.canonical_draws(V, Tmax, e) if e in q]
+                    else:
+                        seqs = self.canonical_draws(V, T, e)
                     for N, batched in ((1, False), (1, True), (2, True), (3, True)):
                         if N == 1:
-                            combos = [[s] for s in seqs]
+                            combos = [[q] for q in seqs]
                         else:
                             combos = [[rng.choice(seqs) for _ in range(N)] for _ in range(budget)]
-                            if len(combos) > budget:
-                                combos = rng.sample(combos, budget)
-                        if eos == -1 or N == 3:
-                            combos = combos[:max(2, budget // 4)]
+                        few = max(2, budget // 4)
+                        if ((eos is not None and eos < 0) or N == 3 or T is None) and len(combos) > few:
+                            combos = rng.sample(combos, few)
                         for paths in combos:
                             k += 1
                             exact = (k % 2 == 0)
-                            tabs = lm_tables(rng, V, N, T, e, exact)
-                            draws = [[paths[n][t] for n in range(N)] for t in range(T)]
+                            steps = T if T is not None else max(q.index(e) for q in paths) + 1
+                            sel, K = None, N
+                            if rng.random() < 0.3:
+                                # a language model conditioned on a batched input through the initial state
+                                K = max(N, 2)
+                                sel = [rng.randrange(K) for _ in range(N)]
+                            tabs = lm_tables(rng, V, K, steps, e, exact)
+                            draws = [[paths[n][t] for n in range(N)] for t in range(steps)]
                             yield {"kind": "walk", "V": V, "N": N, "batched": batched, "eos": eos,
                                    "max_iters": T, "tables": tabs, "default": lm_row(rng, V, exact),
-                                   "draws": draws, "exact": exact}
+                                   "draws": draws, "exact": exact, "sel": sel,
+                                   "dtype": rng.choice(DT_W), "lm_layout": rng.choice(LAY_W)}
+
+    # ---- advance: the step function called directly (with and without prefix lengths)
+    def gen_advance(self, rng, tier):
+        n = {"quick": 150, "thorough": 1500, "search": 2000}[tier]
+        for bad in ("lp_t_dim", "lp_prev_shape", "y_prev_dim", "y_prev_width", "lens_shape"):
+            yield self.mk_advance(rng, 2, 2, 2, True, bad=bad)
+        for i in range(n):
+            N = rng.choice([1, 2, 3])
+            S = rng.choice([0, 1, 2, 3])
+            yield self.mk_advance(rng, rng.choice([1, 2, 3]), N, S, rng.random() < 0.7)
+
+    def mk_advance(self, rng, V, N, S, with_lens, bad=None):
+        y_prev = [[rng.randrange(V) for _ in range(N)] for _ in range(S)]
+        lens = None
+        if with_lens:
+            # all prefixes full / all short (no growth) / mixed
+            mode = rng.choice(["full", "short", "mixed"])
+            lens = [S if mode == "full" else rng.randrange(0, max(S, 1)) if mode == "short" or rng.random() < 0.5
+                    else S for _ in range(N)]
+        return {"kind": "advance", "V": V, "N": N, "S": S, "y_prev": y_prev, "lens": lens,
+                "lp_t": [[dyadic_logp(rng, -6 * 8, 0) for _ in range(V)] for _ in range(N)],
+                "lp_prev": [dyadic_logp(rng, -20 * 8, 0) for _ in range(N)],
+                "draw": [rng.randrange(V) for _ in range(N)], "bad": bad,
+                "dtype": rng.choice(DT_W), "lay_lp": rng.choice(LAY_W), "lay_y": rng.choice(LAY_W)}
+
+    # ---- ctor: argument errors of the walk and the wrapper
+    def gen_ctor(self, rng, tier):
+        for V in (1, 2, 3):
+            for eos in (V, V + 1, -V - 1):
+                yield {"kind": "ctor", "what": "walk_eos_range", "V": V, "eos": eos}
+            yield {"kind": "ctor", "what": "walk_no_limit", "V": V, "eos": None}
+            yield {"kind": "ctor", "what": "walk_negative_limit", "V": V, "eos": rng.choice([None, 0]),
+                   "max_iters": -rng.randrange(1, 3)}
+            yield {"kind": "ctor", "what": "dist_no_limit", "V": V, "eos": None}
+            yield {"kind": "ctor", "what": "dist_no_enumeration", "V": V, "eos": rng.randrange(-V, V)}
+            yield {"kind": "ctor", "what": "dist_batch_size", "V": V, "eos": None, "N": rng.choice([0, -1])}
+            yield {"kind": "ctor", "what": "constraint_no_limit", "V": V, "eos": None}
 
     # ---- dist
     def gen_dist(self, rng, tier):
@@ -265,12 +354,21 @@ class C07(PropertyCheck):
         for _ in range(reps):
             for V in (2, 3):
                 for T in range(1, Tmax + 1):
-                    for eos in [None] + list(range(V)):
-                        for N in (None, 2):
-                            tabs = lm_tables(rng, V, N or 1, T, eos, False, probs=True)
+                    for eos in [None] + list(range(V)) + list(range(-V, 0)):
+                        e = None if eos is None else eos % V
+                        for N in (None, 1, 2):
+                            if eos is not None and eos < 0 and N == 1:
+                                continue
+                            sel, K = None, N or 1
+                            if rng.random() < 0.3:
+                                K = max(K, 2)
+                                sel = [rng.randrange(K) for _ in range(N or 1)]
+                            tabs = lm_tables(rng, V, K, T, e, False, probs=True)
                             yield {"kind": "dist", "V": V, "N": N, "eos": eos, "max_iters": T,
                                    "tables": tabs, "default": lm_row(rng, V, False, probs=True),
-                                   "values": self.dist_values(rng, V, T, eos), "exact": False}
+                                   "values": self.dist_values(rng, V, T, e), "exact": False,
+                                   "sel": sel, "shared": N is None,
+                                   "validate_args": rng.choice([True, True, None, False])}
 
     def dist_values(self, rng, V, T, eos):
         """rows whose validity is asked: every length 1..T+1, with/without eos, OOV before/after eos"""
@@ -297,29 +395,53 @@ class C07(PropertyCheck):
 
     # ---- sample
     def gen_sample(self, rng, tier):
-        reps = {"quick": 3, "thorough": 30, "search": 40}[tier]
+        reps = {"quick": 2, "thorough": 20, "search": 30}[tier]
         for r in range(reps):
             for V in (2, 3):
-                for eos in [None] + list(range(V)):
+                for eos in [None] + list(range(V)) + list(range(-V, 0)):
+                    e = None if eos is None else eos % V
                     for N in (None, 1, 2):
-                        for shape in ([], [1], [2], [3], [2, 2]):
+                        for shape in ([], [1], [2], [3], [2, 2], [0], [2, 0]):
+                            if eos is not None and eos < 0 and (N == 1 or shape in ([1], [2, 0])):
+                                continue
                             T = rng.choice([1, 2, 3])
+                            limit = T
                             M = prodl(shape)
-                            seqs = self.canonical_draws(V, T, eos)
+                            seqs = self.canonical_draws(V, T, e)
+                            if e is not None and rng.random() < 0.2:
+                                # no step limit: every path draws eos
+                                limit = None
+                                seqs = [q for q in seqs if e in q]
                             exact = bool(r % 2)
+
+                            early = [q for q in seqs if e is not None and e in q[:-1]]
+
+                            def group(n):
+                                # sometimes every walk of the group ends before the step limit
+                                pool = early if early and rng.random() < 0.3 else seqs
+                                paths = [rng.choice(pool) for _ in range(n)]
+                                steps = T if limit is not None else max(q.index(e) for q in paths) + 1
+                                return [[paths[j][t] for j in range(n)] for t in range(steps)]
+
+                            sel = None
                             if N is None:
-                                paths = [rng.choice(seqs) for _ in range(M)]
-                                draws = [[paths[m][t] for m in range(M)] for t in range(T)]
-                                tabs = lm_tables(rng, V, M, T, eos, exact, same=True)
+                                draws = group(M) if M else []
+                                K = 1
+                                if rng.random() < 0.3:
+                                    K = 2
+                                    sel = [rng.randrange(K)]
                             else:
-                                draws = []
-                                for m in range(M):
-                                    paths = [rng.choice(seqs) for _ in range(N)]
-                                    draws.append([[paths[n][t] for n in range(N)] for t in range(T)])
-                                tabs = lm_tables(rng, V, N, T, eos, exact)
+                                draws = [group(N) for _ in range(M)]
+                                K = N
+                                if rng.random() < 0.3:
+                                    K = max(N, 2)
+                                    sel = [rng.randrange(K) for _ in range(N)]
+                            tabs = lm_tables(rng, V, K, T, e, exact)
                             yield {"kind": "sample", "V": V, "N": N, "shape": shape, "eos": eos,
-                                   "max_iters": T, "tables": tabs, "default": lm_row(rng, V, exact),
-                                   "draws": draws, "exact": exact}
+                                   "max_iters": limit, "tables": tabs, "default": lm_row(rng, V, exact),
+                                   "draws": draws, "exact": exact, "sel": sel, "shared": N is None,
+                                   "validate_args": rng.choice([True, True, None, False]),
+                                   "dtype": rng.choice(DT_W), "lm_layout": rng.choice(LAY_W)}
 
     # ---- greedy
     def gen_greedy(self, rng, tier):
@@ -333,9 +455,11 @@ class C07(PropertyCheck):
             T = rng.choice([0, 1, 2, 3, 4, 5])
             blank = rng.randrange(-V, V)
             stream = ["probs", "logp", "tol"][i % 3]
-            yield self.mk_greedy(rng, N, T, V, blank, rng.random() < 0.75, rng.random() < 0.5, stream)
+            yield self.mk_greedy(rng, N, T, V, blank, rng.random() < 0.75, rng.random() < 0.5, stream,
+                                 dtype=rng.choice(DT_W), lay=(rng.choice(LAY_W), rng.choice(LAY_W)))
 
-    def mk_greedy(self, rng, N, T, V, blank, with_lens, batch_first, stream):
+    def mk_greedy(self, rng, N, T, V, blank, with_lens, batch_first, stream, dtype="f32",
+                  lay=("contig", "contig")):
         frames = []
         for n in range(N):
             fr = []
@@ -359,7 +483,8 @@ class C07(PropertyCheck):
             frames.append(fr)
         lens = [rng.randrange(0, T + 2) for _ in range(N)] if with_lens else None
         return {"kind": "greedy", "V": V, "blank": blank, "batch_first": batch_first,
-                "stream": stream, "frames": frames, "lens": lens, "T": T}
+                "stream": stream, "frames": frames, "lens": lens, "T": T, "dtype": dtype,
+                "lay_logits": lay[0], "lay_lens": lay[1]}
 
     # ------------------------------------------------------------------ implementation
     def run_impl(self, case):
@@ -373,20 +498,22 @@ class C07(PropertyCheck):
         import torch
         shape, V = case["shape"], case["V"]
         hyp = torch.tensor(case["hyp"], dtype=torch.long).view(shape)
-        logits = tl.from_fracs(case["logits"]).view(shape + [V])
-        return logits, hyp
+        logits = tl.from_fracs(case["logits"], case.get("dtype")).view(shape + [V])
+        return tl.relayout(logits, case.get("lay_logits")), tl.relayout(hyp, case.get("lay_hyp"))
 
     def impl_seq(self, case):
         import torch
         from pydrobert.torch.functional import sequence_log_probs
         from pydrobert.torch.modules import SequenceLogProbabilities
         logits, hyp = self.seq_tensors(case)
+        l0, h0 = logits.clone(), hyp.clone()
         ctx = tl.identity_log_softmax() if case["exact"] else _null()
         with ctx:
             out = sequence_log_probs(logits, hyp, case["dim"], case["eos"])
             out2 = SequenceLogProbabilities(case["dim"], case["eos"])(logits, hyp)
         return {"shape": list(out.shape), "out": [tl.fs(x) for x in out.flatten().tolist()],
-                "module_same": bool(torch.equal(out, out2))}
+                "module_same": bool(torch.equal(out, out2)),
+                "inputs_same": bool(torch.equal(l0, logits) and torch.equal(h0, hyp))}
 
     def req_seq(self, case):
         import torch
@@ -408,13 +535,16 @@ class C07(PropertyCheck):
     # ---- packed
     def packed_objs(self, case):
         import torch
-        from torch.nn.utils.rnn import pack_padded_sequence
-        logits = tl.from_fracs(case["logits"])
+        from torch.nn.utils.rnn import pack_padded_sequence, PackedSequence
+        logits = tl.from_fracs(case["logits"], case.get("dtype"))
         N = len(case["lens"])
         logits = logits.view(N, max(case["lens"]), case["V"])
         lens = torch.tensor(case["lens"])
         ps = pack_padded_sequence(logits, lens, batch_first=True, enforce_sorted=case["enforce_sorted"])
-        hyp = torch.tensor(case["hyp"], dtype=torch.long).view(N, -1)
+        if case.get("lay_data") not in (None, "contig"):
+            ps = PackedSequence(tl.relayout(ps.data, case["lay_data"]), ps.batch_sizes,
+                                ps.sorted_indices, ps.unsorted_indices)
+        hyp = tl.relayout(torch.tensor(case["hyp"], dtype=torch.long).view(N, -1), case.get("lay_hyp"))
         return logits, lens, ps, hyp
 
     def impl_packed(self, case):
@@ -423,18 +553,26 @@ class C07(PropertyCheck):
         logits, lens, ps, hyp = self.packed_objs(case)
         dim = case["dim"]
         h = hyp if dim in (1, -1) else hyp.t()
+        d0, h0 = ps.data.clone(), h.clone()
         ctx = tl.identity_log_softmax() if case["exact"] else _null()
         with ctx:
-            out = sequence_log_probs(ps, h, dim)
+            if case.get("eos_arg") is None:
+                out = sequence_log_probs(ps, h, dim)
+            else:
+                # documented: `eos` is ignored when `logits` is a packed sequence
+                out = sequence_log_probs(ps, h, dim, case["eos_arg"])
             # the same sequences as a padded tensor: positions beyond the length are made padding
             Tm = logits.size(1)
             hp = hyp[:, :Tm].clone() if hyp.size(1) >= Tm else None
             padded = None
             if hp is not None:
                 hp[torch.arange(Tm).unsqueeze(0) >= lens.unsqueeze(1)] = -1
-                padded = sequence_log_probs(logits, hp, 1, None)
-        return {"out": [tl.fs(x) for x in out.tolist()],
-                "padded": None if padded is None else [tl.fs(x) for x in padded.tolist()]}
+                try:
+                    padded = [tl.fs(x) for x in sequence_log_probs(logits, hp, 1, None).tolist()]
+                except Exception as ex:  # the padded-tensor path, not the packed one, raised
+                    padded = {"error": type(ex).__name__, "message": str(ex)[:160]}
+        return {"out": [tl.fs(x) for x in out.tolist()], "padded": padded,
+                "inputs_same": bool(torch.equal(d0, ps.data) and torch.equal(h0, h))}
 
     def req_packed(self, case):
         import torch
@@ -448,31 +586,36 @@ class C07(PropertyCheck):
             "hyp": hyp.tolist(), "lens": case["lens"], "padded": tl.tensor_fracs(lsm(logits))}}
 
     # ---- walk
+    def walk_lm(self, case, shared=False):
+        return tl.make_lm(case["V"], case["tables"], case["default"], norm_eos(case), shared=shared,
+                          dtype=case.get("dtype"), layout=case.get("lm_layout"))
+
     def impl_walk(self, case):
         import torch
         from pydrobert.torch.modules import RandomWalk
         from pydrobert.torch.functional import sequence_log_probs
         from pydrobert.torch.distributions import SequentialLanguageModelDistribution
         V, N, T = case["V"], case["N"], case["max_iters"]
-        e = None if case["eos"] is None else case["eos"] % V
-        lm = tl.make_lm(V, case["tables"], case["default"], e)
+        lm = self.walk_lm(case)
+        init = init_state(case)
         walk = RandomWalk(lm, case["eos"])
         log = []
         ctx = (lambda: tl.identity_log_softmax()) if case["exact"] else _null
         with ctx(), tl.replay_multinomial(case["draws"], log):
-            y, lens, lp = walk(dict(), N if case["batched"] else None, T)
+            y, lens, lp = walk(init, N if case["batched"] else None, T)
         shape = [list(y.shape), list(lens.shape), list(lp.shape)]
         if not case["batched"]:
             y, lens, lp = y.unsqueeze(1), lens.unsqueeze(0), lp.unsqueeze(0)
         obs = {"shapes": shape, "rows": y.size(0), "lens": lens.tolist(),
                "y": [y[: int(lens[n]), n].tolist() for n in range(N)],
-               "lp": [tl.fs(x) for x in lp.tolist()], "steps": len(log), "walk_eos": walk.eos}
+               "lp": [tl.fs(x) for x in lp.tolist()], "steps": len(log), "walk_eos": walk.eos,
+               "unused_draws": len(case["draws"]) - len(log)}
         # the two other code paths: the wrapper's log_prob and sequence_log_probs on the LM's outputs
         if y.size(0) >= 1:
             with ctx():
-                full = lm(y[:-1], dict())
+                full = lm(y[:-1], dict() if init is None else init)
                 obs["seq_lp"] = [tl.fs(x) for x in sequence_log_probs(full, y, 0, walk.eos).tolist()]
-                dist = SequentialLanguageModelDistribution(walk, N, None, T, validate_args=True)
+                dist = SequentialLanguageModelDistribution(walk, N, init, T, validate_args=True)
                 try:
                     obs["dist_lp"] = [tl.fs(x) for x in dist.log_prob(y.t().unsqueeze(0)).view(-1).tolist()]
                 except Exception as ex:  # observation, judged by the predicate
@@ -480,40 +623,122 @@ class C07(PropertyCheck):
         return obs
 
     def req_walk(self, case):
-        V = case["V"]
-        e = None if case["eos"] is None else case["eos"] % V
+        T = case["max_iters"]
         return {"op": "c07.walk", "case": {
-            "V": V, "N": case["N"], "eos": e, "max_iters": case["max_iters"],
-            "lm": tables_json(case["tables"], case["exact"]),
-            "lm_default": tl.lsm_rows([case["default"]], case["exact"])[0],
+            "V": case["V"], "N": case["N"], "eos": norm_eos(case),
+            "max_iters": NO_LIMIT if T is None else T,
+            "lm": tables_json(tables_for(case, case["N"]), case["exact"], dtype=case.get("dtype")),
+            "lm_default": tl.lsm_rows([case["default"]], case["exact"], case.get("dtype"))[0],
             "draws": case["draws"]}}
+
+    # ---- advance
+    def impl_advance(self, case):
+        import torch
+        from pydrobert.torch.functional import random_walk_advance
+        V, N, S = case["V"], case["N"], case["S"]
+        lp_t = tl.relayout(tl.from_fracs(case["lp_t"], case.get("dtype")).view(N, V), case.get("lay_lp"))
+        lp_prev = tl.from_fracs(case["lp_prev"], case.get("dtype")).view(N)
+        y_prev = tl.relayout(torch.tensor(case["y_prev"], dtype=torch.long).view(S, N), case.get("lay_y"))
+        lens = None if case["lens"] is None else torch.tensor(case["lens"], dtype=torch.long)
+        bad = case.get("bad")
+        if bad == "lp_t_dim":
+            lp_t = lp_t.unsqueeze(0)
+        elif bad == "lp_prev_shape":
+            lp_prev = torch.cat([lp_prev, lp_prev[:1]])
+        elif bad == "y_prev_dim":
+            y_prev = y_prev.unsqueeze(0)
+        elif bad == "y_prev_width":
+            y_prev = torch.cat([y_prev, y_prev[:, :1]], 1)
+        elif bad == "lens_shape":
+            lens = torch.cat([lens, lens[:1]])
+        saved = (lp_t.clone(), lp_prev.clone(), y_prev.clone(), None if lens is None else lens.clone())
+        log = []
+        with tl.replay_multinomial([case["draw"]], log):
+            y, lp = random_walk_advance(lp_t, lp_prev, y_prev, lens)
+        same = torch.equal(saved[0], lp_t) and torch.equal(saved[1], lp_prev) and torch.equal(saved[2], y_prev) \
+            and (lens is None or torch.equal(saved[3], lens))
+        return {"y_shape": list(y.shape), "y": y.tolist(), "lp": [tl.fs(x) for x in lp.tolist()],
+                "lp_shape": list(lp.shape), "draws": len(log), "inputs_same": bool(same)}
+
+    def req_advance(self, case):
+        if case.get("bad"):
+            return None
+        return {"op": "c07.advance", "case": {k: case[k] for k in ("lp_t", "lp_prev", "y_prev", "lens", "draw")}}
+
+    # ---- ctor
+    def impl_ctor(self, case):
+        from pydrobert.torch.modules import RandomWalk
+        from pydrobert.torch.distributions import SequentialLanguageModelDistribution
+        V, what = case["V"], case["what"]
+        lm = tl.make_lm(V, [{}], [frac_str(Fraction(0))] * V, None)
+        if what == "walk_eos_range":
+            RandomWalk(lm, case["eos"])
+        elif what == "walk_no_limit":
+            RandomWalk(lm, None)(dict(), 1, None)
+        elif what == "walk_negative_limit":
+            RandomWalk(lm, case["eos"])(dict(), 1, case["max_iters"])
+        elif what == "dist_no_limit":
+            SequentialLanguageModelDistribution(RandomWalk(lm, None), None, None, None)
+        elif what == "dist_no_enumeration":
+            d = SequentialLanguageModelDistribution(RandomWalk(lm, case["eos"]), None, None, None)
+            if d.has_enumerate_support:
+                return {"has_enumerate_support": True}
+            d.enumerate_support()
+        elif what == "dist_batch_size":
+            SequentialLanguageModelDistribution(RandomWalk(lm, None), case["N"], None, 2)
+        elif what == "constraint_no_limit":
+            from pydrobert.torch._decoding import TokenSequenceConstraint
+            TokenSequenceConstraint(V, None, None)
+        return {"accepted": True}
+
+    def req_ctor(self, case):
+        return None
 
     # ---- dist
     def impl_dist(self, case):
         import torch
         from pydrobert.torch.modules import RandomWalk
         from pydrobert.torch.distributions import SequentialLanguageModelDistribution
-        V, N, T, eos = case["V"], case["N"], case["max_iters"], case["eos"]
+        V, N, T = case["V"], case["N"], case["max_iters"]
+        eos = norm_eos(case)
+        va = case.get("validate_args", True)
         tabs = [{k: probs_to_logits([r])[0] for k, r in tab.items()} for tab in case["tables"]]
         dflt = probs_to_logits([case["default"]])[0]
         lm = tl.make_lm(V, tabs, dflt, eos, shared=N is None)
-        walk = RandomWalk(lm, eos)
-        dist = SequentialLanguageModelDistribution(walk, N, None, T, validate_args=True)
+        walk = RandomWalk(lm, case["eos"])
+        dist = SequentialLanguageModelDistribution(walk, N, init_state(case), T, validate_args=va)
         supp = dist.enumerate_support()
-        obs = {"support_shape": list(supp.shape)}
+        obs = {"support_shape": list(supp.shape), "has_enumerate_support": bool(dist.has_enumerate_support)}
         rows = supp if N is None else supp[:, 0]
         obs["support"] = rows.tolist()
         obs["expand_ok"] = True if N is None else bool((supp == supp[:, :1]).all())
+        ne = dist.enumerate_support(expand=False)
+        obs["noexpand_shape"] = list(ne.shape)
+        obs["noexpand_same"] = bool(torch.equal(ne.reshape(ne.size(0), -1), rows))
         try:
             lps = dist.log_prob(supp)
             obs["support_lp"] = [[tl.fs(x) for x in r] for r in lps.view(lps.size(0), -1).t().tolist()]
             obs["logsumexp"] = [float(x) for x in lps.logsumexp(0).view(-1).tolist()]
+            # the same rows handed over as floating-point tensors (what an estimator passes on)
+            for nm, dt in (("f32", torch.float32), ("f64", torch.float64)):
+                try:
+                    obs["support_lp_" + nm] = bool(torch.equal(dist.log_prob(supp.to(dt)), lps))
+                except Exception as ex:
+                    obs["support_lp_" + nm] = {"error": type(ex).__name__, "message": str(ex)[:160]}
         except Exception as ex:
             obs["support_lp"] = {"error": type(ex).__name__, "message": str(ex)[:160]}
-        valid = []
+        frac = supp[:1].to(torch.float32) + 0.5
+        obs["check_fractional"] = bool(dist.support.check(frac).any())
+        valid, check = [], []
         for v in case["values"]:
             val = torch.tensor(v, dtype=torch.long)
             val = val.view(1, -1) if N is None else val.view(1, 1, -1).expand(1, N, -1)
+            try:
+                check.append(bool(dist.support.check(val).all()))
+            except Exception as ex:
+                check.append(type(ex).__name__)
+            if va is False:
+                continue
             try:
                 dist.log_prob(val)
                 valid.append(True)
@@ -521,21 +746,24 @@ class C07(PropertyCheck):
                 valid.append(False)
             except Exception as ex:
                 valid.append(type(ex).__name__)
-        obs["valid"] = valid
+        obs["valid"] = None if va is False else valid
+        obs["check"] = check
         return obs
 
     def req_dist(self, case):
-        V, N, T, eos = case["V"], case["N"], case["max_iters"], case["eos"]
+        V, N, T = case["V"], case["N"], case["max_iters"]
+        eos = norm_eos(case)
         values = [{"n": 0, "seq": v} for v in case["values"]]
         supp = C07.py_support(V, T, eos)
         for n in range(N or 1):
             values += [{"n": n, "seq": s} for s in supp]
+        tabs = tables_for(case, N or 1)
         return {"op": "c07.dist", "case": {
             "V": V, "N": N or 1, "eos": eos, "max_iters": T,
-            "lm": tables_json(case["tables"], False, from_probs=True),
+            "lm": tables_json(tabs, False, from_probs=True),
             "lm_default": tl.lsm_rows(probs_to_logits([case["default"]]), False)[0],
             "plm": [[{"h": [int(x) for x in k.split(",")] if k else [], "row": r}
-                     for k, r in tab.items()] for tab in case["tables"]],
+                     for k, r in tab.items()] for tab in tabs],
             "plm_default": case["default"], "pinned": False, "values": values}}
 
     @staticmethod
@@ -555,49 +783,84 @@ class C07(PropertyCheck):
         import torch
         from pydrobert.torch.modules import RandomWalk
         from pydrobert.torch.distributions import SequentialLanguageModelDistribution
-        V, N, T, eos = case["V"], case["N"], case["max_iters"], case["eos"]
-        lm = tl.make_lm(V, case["tables"], case["default"], eos, shared=N is None)
-        walk = RandomWalk(lm, eos)
-        flat_draws = case["draws"] if N is None else [row for d in case["draws"] for row in d]
+        V, N, T = case["V"], case["N"], case["max_iters"]
+        M = prodl(case["shape"])
+        lm = self.walk_lm(case, shared=N is None)
+        walk = RandomWalk(lm, case["eos"])
+        va = case.get("validate_args", True)
         obs = {}
         ctx = tl.identity_log_softmax() if case["exact"] else _null()
+
+        def lp_obs(dist, value, key):
+            try:
+                lp = dist.log_prob(value)
+                obs[key + "_shape"] = list(lp.shape)
+                obs[key] = [tl.fs(x) for x in lp.reshape(-1).tolist()]
+            except Exception as ex:
+                obs[key] = {"error": type(ex).__name__, "message": str(ex)[:160]}
+
         with ctx:
             for cache in (True, False):
-                dist = SequentialLanguageModelDistribution(walk, N, None, T, cache_samples=cache,
-                                                           validate_args=True)
+                dist = SequentialLanguageModelDistribution(walk, N, init_state(case), T,
+                                                           cache_samples=cache, validate_args=va)
                 log = []
                 # a batched walk stops early when all its paths ended: hand each walk its own draws
                 with _walk_replay(case, log):
                     s = dist.sample(torch.Size(case["shape"]))
                 key = "cached" if cache else "fresh"
                 obs["shape"] = list(s.shape)
-                obs["rows"] = s.reshape(-1, s.size(-1)).tolist()
-                try:
-                    lp = dist.log_prob(s)
-                    obs[key + "_lp_shape"] = list(lp.shape)
-                    obs[key + "_lp"] = [tl.fs(x) for x in lp.reshape(-1).tolist()]
-                except Exception as ex:
-                    obs[key + "_lp"] = {"error": type(ex).__name__, "message": str(ex)[:160]}
+                obs["rows"] = s.reshape(-1, s.size(-1)).tolist() if M else []
+                obs[key + "_draws"] = len(log)
+                lp_obs(dist, s, key + "_lp")
+                if M:
+                    # another value of the same shape (the samples rotated along the sample
+                    # dimension), then the sample again: the cache must not answer for another value
+                    S = s.size(-1)
+                    alt = s.reshape((M, -1, S)).roll(1, 0).reshape(s.shape)
+                    lp_obs(dist, alt, key + "_alt_lp")
+                    lp_obs(dist, s, key + "_again_lp")
+                    if M >= 2:
+                        # a value of another shape (the first draw left out) while the cache is filled
+                        part = s.reshape((M, -1, S))[1:].reshape([M - 1] + list(s.shape[len(case["shape"]):]))
+                        lp_obs(dist, part, key + "_part_lp")
+                    dist.clear_cache()
+                    lp_obs(dist, s, key + "_cleared_lp")
+            if T is not None:
+                supp = dist.enumerate_support()
+                obs["support"] = (supp if N is None else supp[:, 0]).tolist()
         return obs
 
     def req_sample(self, case):
-        V, N = case["V"], case["N"]
+        N = case["N"]
+        M = prodl(case["shape"])
+        tabs = tables_for(case, M if N is None else N)
         return {"op": "c07.sample", "case": {
-            "V": V, "N": N, "M": prodl(case["shape"]), "eos": case["eos"],
-            "max_iters": case["max_iters"], "lm": tables_json(case["tables"], case["exact"]),
-            "lm_default": tl.lsm_rows([case["default"]], case["exact"])[0], "draws": case["draws"]}}
+            "V": case["V"], "N": N, "M": M, "eos": norm_eos(case),
+            "max_iters": case["max_iters"],
+            "lm": tables_json(tabs, case["exact"], dtype=case.get("dtype")),
+            "lm_default": tl.lsm_rows([case["default"]], case["exact"], case.get("dtype"))[0],
+            "draws": case["draws"]}}
 
     # ---- greedy
+    def greedy_tensors(self, case):
+        import torch
+        V, T = case["V"], case["T"]
+        N = len(case["frames"])
+        x = tl.from_fracs(case["frames"], case.get("dtype")).view(N, T, V)
+        if not case["batch_first"]:
+            x = x.transpose(0, 1).contiguous()
+        x = tl.relayout(x, case.get("lay_logits"))
+        lens = None if case["lens"] is None else tl.relayout(torch.tensor(case["lens"]), case.get("lay_lens"))
+        return x, lens
+
     def impl_greedy(self, case):
         import torch
         from pydrobert.torch.functional import ctc_greedy_search
         from pydrobert.torch.modules import CTCGreedySearch
-        V, T = case["V"], case["T"]
         N = len(case["frames"])
-        x = tl.from_fracs(case["frames"]).view(N, T, V)
-        if not case["batch_first"]:
-            x = x.transpose(0, 1).contiguous()
-        lens = None if case["lens"] is None else torch.tensor(case["lens"])
+        x, lens = self.greedy_tensors(case)
+        x0 = x.clone()
+        l0 = None if lens is None else lens.clone()
         is_probs = case["stream"] == "probs"
         ctx = tl.identity_log_softmax() if case["stream"] == "logp" else _null()
         with ctx:
@@ -610,13 +873,14 @@ class C07(PropertyCheck):
         return {"score": [tl.fs(v) for v in mx.tolist()], "out_lens": ol, "paths_shape": pshape,
                 "paths": [paths[n, : ol[n]].tolist() for n in range(N)],
                 "module_same": bool(torch.equal(mx, mx2) and torch.equal(out_lens, out_lens2)
-                                    and all(torch.equal(paths[n, : ol[n]], paths2[n, : ol[n]]) for n in range(N)))}
+                                    and all(torch.equal(paths[n, : ol[n]], paths2[n, : ol[n]]) for n in range(N))),
+                "inputs_same": bool(torch.equal(x0, x) and (lens is None or torch.equal(l0, lens)))}
 
     def req_greedy(self, case):
         import torch
         V, T = case["V"], case["T"]
         N = len(case["frames"])
-        x = tl.from_fracs(case["frames"]).view(N, T, V)
+        x = tl.from_fracs(case["frames"], case.get("dtype")).view(N, T, V)
         if case["stream"] == "tol":
             x = x.log_softmax(2)
         return {"op": "c07.greedy", "case": {
@@ -666,6 +930,8 @@ class C07(PropertyCheck):
                           f"{model['spec']}", None))
         if not impl["module_same"]:
             fails.append(("SequenceLogProbabilities differs from the functional", None))
+        if not impl.get("inputs_same", True):
+            fails.append(("sequence_log_probs modified its input tensors", None))
         return fails
 
     # ---- packed
@@ -690,13 +956,18 @@ class C07(PropertyCheck):
             return [(f"packed sequence_log_probs raised {impl['error']} (dim={case['dim']}): "
                      f"{impl.get('message')}", sig)]
         fails = []
-        if not (model["flags"]["hbs"] and model["flags"]["layout"]):
-            raise RuntimeError(f"internal: hypotheses of C07_packed do not hold on a PackedSequence built by torch: "
-                               f"{model['flags']}")
+        if not all(model["flags"].values()):
+            raise RuntimeError(f"internal: hypotheses of C07_packed / C07_packed_seq do not hold on a "
+                               f"PackedSequence built by torch: {model['flags']}")
         if not all_close(impl["out"], model["spec"], case["exact"]):
             fails.append((f"packed score {impl['out']} differs from per-sequence sums {model['spec']}", None))
-        if impl["padded"] is not None and not all_close(impl["out"], impl["padded"], case["exact"]):
+        if isinstance(impl["padded"], dict):
+            fails.append((f"the same sequences as a padded tensor (positions beyond the lengths set to -1): "
+                          f"sequence_log_probs raised {impl['padded']}; packed gave {impl['out']}", None))
+        elif impl["padded"] is not None and not all_close(impl["out"], impl["padded"], case["exact"]):
             fails.append((f"packed {impl['out']} != padded {impl['padded']}", None))
+        if not impl.get("inputs_same", True):
+            fails.append(("packed sequence_log_probs modified its input tensors", None))
         return fails
 
     # ---- walk
@@ -726,8 +997,10 @@ class C07(PropertyCheck):
             return [(f"random walk raised {impl['error']}: {impl.get('message')}", None)]
         s = model["spec"]
         N, T, V = case["N"], case["max_iters"], case["V"]
-        e = None if case["eos"] is None else case["eos"] % V
+        e = norm_eos(case)
         fails = []
+        if impl["walk_eos"] != e:
+            fails.append((f"RandomWalk.eos {impl['walk_eos']} for eos index {case['eos']}, V={V}", None))
         exp_shapes = [[s["steps"], N], [N], [N]] if case["batched"] else [[s["steps"]], [], []]
         if impl["shapes"] != exp_shapes:
             fails.append((f"shapes {impl['shapes']} != {exp_shapes}", None))
@@ -740,7 +1013,7 @@ class C07(PropertyCheck):
                               f"to the first eos / step limit {path}", None))
                 continue
             ends_ok = (e is not None and path and path[-1] == e and e not in path[:-1]) or \
-                      (len(path) == T and (e is None or e not in path))
+                      (T is not None and len(path) == T and (e is None or e not in path))
             if not ends_ok:
                 fails.append((f"path {n} does not end at its first eos or the step limit", None))
         if not all_close(impl["lp"], s["chained"], case["exact"]):
@@ -751,7 +1024,7 @@ class C07(PropertyCheck):
         if "dist_lp" in impl:
             if isinstance(impl["dist_lp"], dict):
                 sig = None
-                if impl["dist_lp"]["error"] == "ValueError" and 1 < impl["rows"] < T \
+                if impl["dist_lp"]["error"] == "ValueError" and T is not None and 1 < impl["rows"] < T \
                         and "cannot broadcast" in impl["dist_lp"].get("message", ""):
                     sig = "C07.validate_sample.intermediate_length"
                 fails.append((f"log_prob of the walk's own output raised {impl['dist_lp']}", sig))
@@ -768,10 +1041,12 @@ class C07(PropertyCheck):
         if impl["support"] != m["support"]:
             out.append(f"support impl={impl['support']} model={m['support']}")
         nv = len(case["values"])
-        if impl["valid"] != m["valid"][:nv]:
+        if impl["valid"] is not None and impl["valid"] != m["valid"][:nv]:
             out.append(f"validation impl={impl['valid']} model={m['valid'][:nv]}")
+        if impl["check"] != m["check"][:nv]:
+            out.append(f"support.check impl={impl['check']} model={m['check'][:nv]}")
         if isinstance(impl["support_lp"], list) and impl["support"] == m["support"]:
-            order = C07.py_support(case["V"], case["max_iters"], case["eos"])
+            order = C07.py_support(case["V"], case["max_iters"], norm_eos(case))
             S = len(order)
             for n, row in enumerate(impl["support_lp"]):
                 by_row = {tuple(r): m["log_probs"][nv + n * S + i] for i, r in enumerate(order)}
@@ -783,9 +1058,16 @@ class C07(PropertyCheck):
     def pred_dist(self, case, impl, model):
         if self.err(impl):
             return [(f"distribution raised {impl['error']}: {impl.get('message')}", None)]
-        V, N, T, eos = case["V"], case["N"], case["max_iters"], case["eos"]
+        V, N, T = case["V"], case["N"], case["max_iters"]
+        eos = norm_eos(case)
         s = model["spec"]
         fails = []
+        if not impl["has_enumerate_support"]:
+            fails.append(("has_enumerate_support is False although max_iters is set", None))
+        exp_ne = [len(s["support"])] + ([] if N is None else [1]) + [T]
+        if impl["noexpand_shape"] != exp_ne or not impl["noexpand_same"]:
+            fails.append((f"enumerate_support(expand=False): shape {impl['noexpand_shape']} (expected {exp_ne}), "
+                          f"same rows: {impl['noexpand_same']}", None))
         if sorted(impl["support"]) != s["support"]:
             fails.append((f"enumerate_support {impl['support']} is not the set of eos-truncated sequences "
                           f"{s['support']}", None))
@@ -800,15 +1082,27 @@ class C07(PropertyCheck):
             for x in impl["logsumexp"]:
                 if abs(x) > 1e-4:
                     fails.append((f"probabilities over the support sum to exp({x})", None))
+        for nm in ("f32", "f64"):
+            if impl.get("support_lp_" + nm, True) is not True:
+                fails.append((f"log_prob of the support rows given as {nm} tensor: {impl['support_lp_' + nm]} "
+                              f"(True = same as for the integer tensor)", None))
+        if impl.get("check_fractional"):
+            fails.append(("support.check accepts a row of non-integer values", None))
         if s["mass"] is not None and any(Fraction(x) != 1 for x in s["mass"]):
             raise RuntimeError(f"internal: spec support mass {s['mass']} != 1")
         supp = set(map(tuple, s["support"]))
-        for v, ok in zip(case["values"], impl["valid"]):
+        valid = impl["valid"] if impl["valid"] is not None else [None] * len(case["values"])
+        for v, ok, chk in zip(case["values"], valid, impl["check"]):
             w = list(v)
             if eos is not None and eos in w:
                 w = w[: w.index(eos) + 1]
                 w = w + [eos] * (T - len(w))
             member = 1 <= len(v) <= T and len(w) == T and tuple(w) in supp
+            if chk is not member:
+                fails.append((f"support.check({v}) = {chk} (max_iters={T}, eos={eos}), membership in the "
+                              f"support is {member}", None))
+            if ok is None:
+                continue
             if ok is not True and ok is not False:
                 fails.append((f"log_prob({v}) raised {ok}", None))
             elif member and not ok:
@@ -819,59 +1113,175 @@ class C07(PropertyCheck):
         return fails
 
     # ---- sample
+    LP_KEYS = ("cached_lp", "fresh_lp", "cached_again_lp", "fresh_again_lp", "cached_cleared_lp",
+               "fresh_cleared_lp")
+    ALT_KEYS = ("cached_alt_lp", "fresh_alt_lp")
+    PART_KEYS = ("cached_part_lp", "fresh_part_lp")
+
+    def expected_lp(self, key, lps, M):
+        if key in self.ALT_KEYS:
+            return self.rolled(lps, M)
+        if key in self.PART_KEYS:
+            return lps[len(lps) // M:]
+        return lps
+
+    @staticmethod
+    def rolled(lps, M):
+        """scores of the samples rotated by one along the (flattened) sample dimension"""
+        if not M:
+            return []
+        n = len(lps) // M
+        return [lps[((i // n - 1) % M) * n + i % n] for i in range(len(lps))]
+
     def cmp_sample(self, case, impl, model):
         if self.err(impl):
             return [f"implementation raised {impl['error']}: {impl.get('message')}"]
         m = model["model"]
+        M = prodl(case["shape"])
         out = []
         if impl["rows"] != m["rows"]:
             out.append(f"sample rows impl={impl['rows']} model={m['rows']}")
-        for key in ("cached_lp", "fresh_lp"):
-            if isinstance(impl[key], list) and impl["rows"] == m["rows"] and \
-                    not all_close(impl[key], m["log_probs"], case["exact"]):
-                out.append(f"{key} impl={impl[key]} model={m['log_probs']}")
+        elif M:
+            for key in self.LP_KEYS + self.ALT_KEYS + self.PART_KEYS:
+                exp = self.expected_lp(key, m["log_probs"], M)
+                if isinstance(impl.get(key), list) and not all_close(impl[key], exp, case["exact"]):
+                    out.append(f"{key} impl={impl[key]} model={exp}")
         return out
 
     def pred_sample(self, case, impl, model):
         if self.err(impl):
             return [(f"sample raised {impl['error']}: {impl.get('message')}", None)]
-        V, N, T, eos = case["V"], case["N"], case["max_iters"], case["eos"]
+        V, N, T = case["V"], case["N"], case["max_iters"]
+        eos = norm_eos(case)
+        M = prodl(case["shape"])
         fails = []
         exp = case["shape"] + ([] if N is None else [N])
-        if impl["shape"][:-1] != exp or not (1 <= impl["shape"][-1] <= T):
-            fails.append((f"sample shape {impl['shape']} for sample_shape {case['shape']}, batch {N}", None))
-        supp = set(map(tuple, C07.py_support(V, T, eos)))
-        exp_lp = []
-        k = 0
+        if M == 0:
+            # no draw at all: an empty tensor of sample + batch + event shape, scores of sample + batch shape
+            full = exp + [1 if T is None else T]
+            if impl["shape"] != full:
+                fails.append((f"empty sample has shape {impl['shape']}, expected {full}", None))
+            for key in ("cached_lp", "fresh_lp"):
+                v = impl[key]
+                if isinstance(v, dict):
+                    fails.append((f"log_prob of an empty sample raised {v}", None))
+                elif impl[key + "_shape"] != exp or v:
+                    fails.append((f"log_prob of an empty sample has shape {impl[key + '_shape']}", None))
+            return fails
+        S = impl["shape"][-1]
+        if impl["shape"][:-1] != exp or S < 1 or (T is not None and S > T):
+            fails.append((f"sample shape {impl['shape']} for sample_shape {case['shape']}, batch {N}, "
+                          f"max_iters {T}", None))
+        # "its samples lie in that support": a sampled row, padded with eos to the step limit when
+        # every walk of the call ended early, is literally a row of enumerate_support()
+        spec_supp = None if T is None else set(map(tuple, C07.py_support(V, T, eos)))
+        impl_supp = None if T is None else set(map(tuple, impl["support"]))
         for r in impl["rows"]:
-            w = list(r)
-            if eos is not None and eos in w:
-                w = w[: w.index(eos) + 1]
-            elif len(w) != T:
+            if T is None:
+                i = r.index(eos) if eos in r else None
+                if i is None or any(not (0 <= x < V) for x in r) or any(x != eos for x in r[i:]):
+                    fails.append((f"sampled row {r} (eos={eos}, no step limit) is not an in-vocabulary "
+                                  f"sequence ending in eos and padded with eos", None))
+                continue
+            if len(r) < T and (eos is None or eos not in r):
                 fails.append((f"sampled row {r} has neither eos nor {T} tokens", None))
-            w = w + [eos] * (T - len(w)) if eos is not None else w
-            if tuple(w) not in supp:
+                continue
+            w = tuple(r) + (eos,) * (T - len(r))
+            if w not in impl_supp:
+                fails.append((f"sampled row {r} (eos={eos}, max_iters={T}) is not a row of "
+                              f"enumerate_support() {sorted(impl_supp)}", None))
+            elif w not in spec_supp:
                 fails.append((f"sampled row {r} is not in the support", None))
         if not all(model["spec"]["in_support"]):
             raise RuntimeError("internal: model sample outside the spec support")
-        for key in ("cached_lp", "fresh_lp"):
+        same_rows = impl["rows"] == model["model"]["rows"]
+        for key in self.LP_KEYS + self.ALT_KEYS + self.PART_KEYS:
+            if key not in impl:
+                continue
             v = impl[key]
+            exp_lp = self.expected_lp(key, model["model"]["log_probs"], M)
+            exp_shape = exp if key not in self.PART_KEYS else [M - 1] + ([] if N is None else [N])
             if isinstance(v, dict):
                 sig = None
-                if v["error"] == "ValueError" and 1 < impl["shape"][-1] < T and "cannot broadcast" in v.get("message", ""):
+                if v["error"] == "ValueError" and T is not None and 1 < S < T \
+                        and "cannot broadcast" in v.get("message", ""):
                     sig = "C07.validate_sample.intermediate_length"
                 elif not case["shape"] and v["error"] in ("RuntimeError", "IndexError"):
                     sig = "C07.log_prob.sample_shape"
                 elif len(case["shape"]) > 1 and N is None and v["error"] == "RuntimeError":
                     sig = "C07.log_prob.sample_shape"
-                fails.append((f"log_prob(sample()) raised {v} (sample_shape={case['shape']}, batch={N}, "
+                fails.append((f"{key}: log_prob(sample()) raised {v} (sample_shape={case['shape']}, batch={N}, "
                               f"max_iters={T}, rows={impl['rows']})", sig))
             else:
-                if impl[key + "_shape"] != exp:
-                    fails.append((f"{key} shape {impl[key + '_shape']} != {exp}", None))
-                if not all_close(v, model["model"]["log_probs"], case["exact"]) and impl["rows"] == model["model"]["rows"]:
-                    fails.append((f"{key} {v} != score of the sampled rows {model['model']['log_probs']}", None))
+                if impl[key + "_shape"] != exp_shape:
+                    fails.append((f"{key} shape {impl[key + '_shape']} != {exp_shape}", None))
+                if same_rows and not all_close(v, exp_lp, case["exact"]):
+                    fails.append((f"{key} {v} != score of the rows {exp_lp} (sampled rows {impl['rows']}; "
+                                  f"_alt = the samples rotated by one, _again = the sample after another "
+                                  f"value was scored, _part = all draws but the first, _cleared = after "
+                                  f"clear_cache())", None))
         return fails
+
+    # ---- advance
+    def cmp_advance(self, case, impl, model):
+        if self.err(impl):
+            return [f"implementation raised {impl['error']}: {impl.get('message')}"]
+        m = model["model"]
+        out = []
+        if impl["y"] != m["y"]:
+            out.append(f"y_next impl={impl['y']} model={m['y']}")
+        if not all_close(impl["lp"], m["lp"], True):
+            out.append(f"log_probs_next impl={impl['lp']} model={m['lp']}")
+        return out
+
+    def pred_advance(self, case, impl, model):
+        if case.get("bad"):
+            if self.err(impl) and impl["error"] == "RuntimeError":
+                return []
+            return [(f"random_walk_advance with a malformed argument ({case['bad']}): expected RuntimeError, "
+                     f"got {impl}", None)]
+        if self.err(impl):
+            return [(f"random_walk_advance raised {impl['error']}: {impl.get('message')}", None)]
+        N, S = case["N"], case["S"]
+        lens = case["lens"] if case["lens"] is not None else [S] * N
+        fails = []
+        grow = S == 0 or max(lens) >= S
+        exp_shape = [S + 1 if grow else S, N]
+        if impl["y_shape"] != exp_shape:
+            fails.append((f"y_next has shape {impl['y_shape']}, expected {exp_shape} (prefix lengths {lens})", None))
+        else:
+            for n in range(N):
+                col = [row[n] for row in impl["y"]]
+                want = [case["y_prev"][t][n] for t in range(lens[n])] + [case["draw"][n]]
+                if col[: lens[n] + 1] != want:
+                    fails.append((f"path {n}: {col[: lens[n] + 1]} is not the prefix of length {lens[n]} "
+                                  f"extended by the drawn token {want}", None))
+        exp_lp = [frac_str(Fraction(case["lp_prev"][n]) + Fraction(case["lp_t"][n][case["draw"][n]]))
+                  for n in range(N)]
+        if impl["lp_shape"] != [N] or not all_close(impl["lp"], exp_lp, True):
+            fails.append((f"log_probs_next {impl['lp']} != previous + log-probability of the drawn token {exp_lp}",
+                          None))
+        if impl["draws"] != 1:
+            fails.append((f"{impl['draws']} draws taken in one step", None))
+        if not impl["inputs_same"]:
+            fails.append(("random_walk_advance modified its input tensors", None))
+        return fails
+
+    # ---- ctor
+    CTOR_ERR = {"walk_eos_range": "ValueError", "walk_no_limit": "RuntimeError",
+                "walk_negative_limit": "RuntimeError", "dist_no_limit": "ValueError",
+                "dist_no_enumeration": "NotImplementedError", "dist_batch_size": "ValueError",
+                "constraint_no_limit": "ValueError"}
+
+    def cmp_ctor(self, case, impl, model):
+        return []
+
+    def pred_ctor(self, case, impl, model):
+        want = self.CTOR_ERR[case["what"]]
+        if self.err(impl) and impl["error"] == want:
+            return []
+        return [(f"{case['what']} ({ {k: v for k, v in case.items() if k not in ('kind', 'what')} }): "
+                 f"expected {want}, got {impl}", None)]
 
     # ---- greedy
     def cmp_greedy(self, case, impl, model):
@@ -918,6 +1328,8 @@ class C07(PropertyCheck):
                               f"blanks removed {s['labels'][n]}", None))
         if not impl["module_same"]:
             fails.append(("CTCGreedySearch differs from the functional", None))
+        if not impl.get("inputs_same", True):
+            fails.append(("ctc_greedy_search modified its input tensors", None))
         return fails
 
     # ------------------------------------------------------------------ evidence
@@ -936,12 +1348,17 @@ class C07(PropertyCheck):
             return any(case["eos"] in r[:-1] for r in h.tolist())
         if k == "packed":
             return len(set(case["lens"])) > 1
+        if k == "ctor":
+            return False
+        if k == "advance":
+            return not case.get("bad") and case["S"] >= 1
         if k == "walk":
-            return any(l < case["max_iters"] for l in impl["lens"]) and case["max_iters"] >= 2
+            T = case["max_iters"]
+            return T is None or (any(l < T for l in impl["lens"]) and T >= 2)
         if k == "dist":
             return case["eos"] is not None and case["max_iters"] >= 2
         if k == "sample":
-            return impl["shape"][-1] >= 2 or len(case["shape"]) != 1
+            return prodl(case["shape"]) > 0 and (impl["shape"][-1] >= 2 or len(case["shape"]) != 1)
         if k == "greedy":
             fr = sum(min(case["T"], l) if case["lens"] is not None else case["T"]
                      for l in (case["lens"] or [0] * len(case["frames"])))
@@ -951,35 +1368,88 @@ class C07(PropertyCheck):
     def tags(self, case, impl):
         k = case["kind"]
         t = ["kind=" + k]
+
+        def lay(prefix, *names):
+            for nm in names:
+                t.append(f"{prefix}.{nm}={case.get(nm) or 'contig'}")
+
+        def eos_tag(prefix):
+            e = case["eos"]
+            t.append(f"{prefix}.eos=" + ("unset" if e is None else "negative index" if e < 0 else "index"))
+
         if k == "seq":
             t += [f"seq.rank={len(case['shape'])}", f"seq.dim={case['dim']}",
                   "seq.eos=" + ("unset" if case["eos"] is None else
+                                "negative" if case["eos"] < 0 else
                                 "oov" if not (0 <= case["eos"] < case["V"]) else "in"),
-                  "stream=" + ("exact" if case["exact"] else "tol")]
+                  "stream=" + ("exact" if case["exact"] else "tol"), f"seq.dtype={case.get('dtype', 'f32')}"]
+            lay("seq", "lay_logits", "lay_hyp")
         elif k == "packed":
             t += [f"packed.N={len(case['lens'])}", f"packed.dim={case['dim']}",
                   f"packed.enforce_sorted={case['enforce_sorted']}",
-                  "stream=" + ("exact" if case["exact"] else "tol")]
+                  "stream=" + ("exact" if case["exact"] else "tol"),
+                  f"packed.dtype={case.get('dtype', 'f32')}",
+                  "packed.eos_arg=" + ("unset" if case.get("eos_arg") is None else "set")]
+            lay("packed", "lay_data", "lay_hyp")
         elif k == "walk":
             t += [f"walk.V={case['V']}", f"walk.T={case['max_iters']}", f"walk.N={case['N']}",
-                  f"walk.batched={case['batched']}", "walk.eos=" + ("unset" if case["eos"] is None else "set"),
-                  "stream=" + ("exact" if case["exact"] else "tol")]
-            if not self.err(impl) and impl["rows"] < case["max_iters"]:
+                  f"walk.batched={case['batched']}",
+                  "stream=" + ("exact" if case["exact"] else "tol"),
+                  f"walk.dtype={case.get('dtype', 'f32')}",
+                  "walk.initial_state=" + ("unset" if case.get("sel") is None else "selects tables")]
+            eos_tag("walk")
+            lay("walk", "lm_layout")
+            if not self.err(impl) and case["max_iters"] is not None and impl["rows"] < case["max_iters"]:
                 t.append("walk.early_break")
         elif k == "dist":
-            t += [f"dist.T={case['max_iters']}", f"dist.batch={case['N']}", "stream=tol"]
+            t += [f"dist.T={case['max_iters']}", f"dist.batch={case['N']}", "stream=tol",
+                  f"dist.validate_args={case.get('validate_args', True)}",
+                  "dist.initial_state=" + ("unset" if case.get("sel") is None else "selects tables")]
+            eos_tag("dist")
         elif k == "sample":
             t += [f"sample.shape={case['shape']}", f"sample.batch={case['N']}",
+                  f"sample.max_iters={'unset' if case['max_iters'] is None else 'set'}",
+                  f"sample.validate_args={case.get('validate_args', True)}",
+                  f"sample.dtype={case.get('dtype', 'f32')}",
+                  "sample.initial_state=" + ("unset" if case.get("sel") is None else "selects tables"),
                   "stream=" + ("exact" if case["exact"] else "tol")]
+            eos_tag("sample")
+            lay("sample", "lm_layout")
+            if not self.err(impl) and case["max_iters"] is not None and prodl(case["shape"]) \
+                    and impl["shape"][-1] < case["max_iters"]:
+                t.append("sample.all_walks_ended_early")
+            e = norm_eos(case)
+            if not self.err(impl) and case["N"] is not None and e not in (None, 0) \
+                    and any(e in r[:-1] for r in impl["rows"]):
+                t.append("sample.batched_cells_after_first_nonzero_eos")
         elif k == "greedy":
             t += [f"greedy.blank={case['blank']}", f"greedy.batch_first={case['batch_first']}",
                   f"greedy.lens={'set' if case['lens'] is not None else 'unset'}",
-                  "stream=" + {"probs": "exact(is_probs)", "logp": "exact", "tol": "tol"}[case["stream"]]]
+                  "stream=" + {"probs": "exact(is_probs)", "logp": "exact", "tol": "tol"}[case["stream"]],
+                  f"greedy.dtype={case.get('dtype', 'f32')}"]
+            lay("greedy", "lay_logits", "lay_lens")
+        elif k == "ctor":
+            t.append("ctor." + case["what"])
+        elif k == "advance":
+            S, lens = case["S"], case["lens"]
+            t += [f"advance.S={S}", "advance.lens=" + ("unset" if lens is None else "all full" if min(lens) >= S
+                                                       else "none full" if max(lens) < S else "mixed"),
+                  f"advance.dtype={case.get('dtype', 'f32')}"]
+            lay("advance", "lay_lp", "lay_y")
+            if case.get("bad"):
+                t.append("advance.malformed=" + case["bad"])
         return t
 
     # ------------------------------------------------------------------ shrinking
     def shrink(self, case):
         k = case["kind"]
+        for f, plain in (("lay_logits", "contig"), ("lay_hyp", "contig"), ("lay_data", "contig"),
+                         ("lay_lens", "contig"), ("lm_layout", "contig"), ("lay_lp", "contig"),
+                         ("lay_y", "contig"), ("dtype", "f32")):
+            if case.get(f) not in (None, plain):
+                c = dict(case)
+                c[f] = plain
+                yield c
         if k == "seq":
             yield from self.shrink_seq(case)
         elif k == "walk":
@@ -988,10 +1458,13 @@ class C07(PropertyCheck):
                 for drop in range(N):
                     c = dict(case)
                     c["N"] = N - 1
-                    c["tables"] = [t for i, t in enumerate(case["tables"]) if i != drop]
+                    if case.get("sel") is None:
+                        c["tables"] = [t for i, t in enumerate(case["tables"]) if i != drop]
+                    else:
+                        c["sel"] = [t for i, t in enumerate(case["sel"]) if i != drop]
                     c["draws"] = [[x for i, x in enumerate(r) if i != drop] for r in case["draws"]]
                     yield c
-            if T > 0:
+            if T is not None and T > 0:
                 c = dict(case)
                 c["max_iters"] = T - 1
                 c["draws"] = case["draws"][: T - 1]
